@@ -155,6 +155,37 @@ func Docs() map[string]func() *sbom.Document {
 			return d
 		},
 		"empty": func() *sbom.Document { return sbom.NewDocument() },
+		// a well-formed but not normalised document: repeated targets (adjacent and apart), several edge objects per
+		// source and type, a repeated root, repeated elements in the nodes' lists - anything that de-duplicates or
+		// merges in place shows
+		"non-normalised": func() *sbom.Document {
+			d := sbom.NewDocument()
+			d.Metadata.Id = "urn:uuid:0b8e2a5e-6c1b-4f6e-9a89-333333333333"
+			mk := func(id string) *sbom.Node {
+				n := fullNode(id, "D")
+				n.Licenses = append(n.Licenses, n.Licenses[0], n.Licenses[1])
+				n.Suppliers = append(n.Suppliers, n.Suppliers[0])
+				n.ExternalReferences = append(n.ExternalReferences, n.ExternalReferences[1])
+				return n
+			}
+			d.NodeList.Nodes = []*sbom.Node{mk("r"), mk("a"), mk("b"), mk("c")}
+			d.NodeList.Edges = []*sbom.Edge{
+				{From: "r", Type: sbom.Edge_dependsOn, To: []string{"a", "a", "b"}},
+				{From: "r", Type: sbom.Edge_contains, To: []string{"b", "a", "b", "c"}},
+				{From: "r", Type: sbom.Edge_dependsOn, To: []string{"c", "a"}},
+				{From: "a", Type: sbom.Edge_contains, To: []string{"c", "c"}},
+			}
+			d.NodeList.RootElements = []string{"r"}
+			return d
+		},
+		// the multi-root document with every slice rebuilt with spare capacity (as slices grown by appends or decoded
+		// from the wire have): an operation that appends into an operand writes into memory the operand owns
+		"spare-capacity": func() *sbom.Document {
+			d := Docs()["full-multiroot"]()
+			d.NodeList.RootElements = append(d.NodeList.RootElements, "b")
+			gen.SpareList(d.NodeList)
+			return d
+		},
 		// identifier value shapes: well-formed, SPDX-style extra slash, qualifiers+subpath, upper case, truncated, not a purl
 		"identifier-shapes": func() *sbom.Document {
 			d := sbom.NewDocument()
@@ -367,9 +398,16 @@ func Run(c *engine.Ctx) {
 				c.Case(func() any { return map[string]string{"op": ops[oi].Name, "operand": dn, "second-operand": an} }, func(t *engine.T) *engine.Violation {
 					d, aux := docs[dn](), docs[an]()
 					bd, ba := gen.Snap(d), gen.Snap(aux)
+					cd, ca := gen.SnapCap(d), gen.SnapCap(aux)
 					ops[oi].Run(d, aux)
 					t.Transitions(1)
 					t.Validated(2)
+					if ad := gen.SnapCap(d); ad != cd && gen.Snap(d) == bd {
+						return engine.Violate("operand-mutated", "beyond-length:"+opFamily(ops[oi].Name), "%s on %s wrote into its operand's memory beyond a slice's length (spare capacity): %s", ops[oi].Name, dn, gen.SnapDiff(cd, ad))
+					}
+					if aa := gen.SnapCap(aux); aa != ca && gen.Snap(aux) == ba {
+						return engine.Violate("operand-mutated", "beyond-length:"+opFamily(ops[oi].Name), "%s on %s wrote into its second operand's memory beyond a slice's length: %s", ops[oi].Name, dn, gen.SnapDiff(ca, aa))
+					}
 					if ad := gen.Snap(d); ad != bd {
 						return engine.Violate("operand-mutated", opFamily(ops[oi].Name), "%s on %s changed its operand: %s", ops[oi].Name, dn, gen.SnapDiff(bd, ad))
 					}
